@@ -5,6 +5,9 @@
 #include "vf_harness.h"
 VF_GHOSTS
 long nondet_long(void);
+#ifdef VF_MATRIX_STRING
+#define VF_STUB_STR_CUT
+#endif
 #include "value_stubs.h"
 #ifndef VF_IMG
 #define VF_IMG 6
@@ -68,3 +71,52 @@ void h_B_readParam(void)
   }
   VF_CANARY();
 }
+
+#ifdef VF_MATRIX_STRING
+/* ---------------------------------------------------------------- string form: c3d::readParam(dims, strings) = _readMatrix (one
+ * 1-character string per cell) + _dispatchMatrix (rows of dims[0] characters, trailing spaces trimmed).
+ * Bound: VF_SR rows of VF_SW characters (constants of the unit), image of at most VF_IMG non-NUL bytes, any truncation. */
+#define VF_STUB_STR_CUT
+void h_B_readParam_string(void)
+{
+  struct c3d *file = (struct c3d *)vf_alloc(sizeof(*file));
+  unsigned char *img = (unsigned char *)vf_alloc(VF_IMG);
+  size_t len = nondet_size_t();
+  __CPROVER_assume(len <= VF_IMG);
+  for (size_t i = 0; i < VF_IMG; ++i) __CPROVER_assume(img[i] != 0);
+  file->vf_base.buf = img;
+  file->vf_base.len = len;
+  file->vf_base.cap = VF_IMG;
+  file->vf_base.pos = 0;
+  file->vf_base.is_open = 1;
+  file->vf_base.eof = 0;
+  file->vf_base.fail = 0;
+  file->vf_base.writable = 0;
+  file->vf_base.work = 0;
+  vf_vec_size_t *dims = (vf_vec_size_t *)vf_alloc(sizeof(*dims));
+  dims->size = 2;
+  dims->data = (size_t *)vf_alloc(2 * sizeof(size_t));
+  dims->data[0] = VF_SW; dims->data[1] = VF_SR;   /* constants: loop and recursion structure decided during symbolic execution */
+  size_t w = VF_SW, rows = VF_SR, n = w * rows;
+  vf_vec_string *out = (vf_vec_string *)vf_alloc(sizeof(*out));
+  out->size = 0; out->data = 0;
+  vf_exc = 0;
+  c3d__readParam__vsz_vstr(file, dims, out);
+  /*@ C16 : readParam_string.only-standard-exceptions */
+  __CPROVER_assert(vf_exc == 0 || vf_exc == VF_EXC_ios_failure, "returns, or throws ios_base::failure");
+  /*@ C16 : readParam_string.work-proportional-to-the-bytes-that-exist */
+  __CPROVER_assert(file->vf_base.work <= len + 1, "at most one request beyond the end of the file");
+  /*@ C16 C02 : readParam_string.truncated-matrix-is-refused */
+  __CPROVER_assert(!(n > len) || vf_exc == VF_EXC_ios_failure, "a matrix that runs past the end of the file is refused");
+  /*@ C16 C02 : readParam_string.complete-matrix-is-accepted */
+  __CPROVER_assert(!(n <= len) || (vf_exc == 0 && out->size == rows), "one string per row");
+  if (vf_exc == 0 && n <= len && vf_gv < rows) {
+    size_t t = w;                                  /* length after trimming the trailing spaces of row vf_gv */
+    for (size_t k = 3; k-- > 0;) if (k < w && t == k + 1 && img[vf_gv * w + k] == ' ') t = k;
+    /*@ C02 C11 : readParam_string.row-is-its-characters-without-trailing-spaces */
+    __CPROVER_assert(out->data[vf_gv].size == t && (vf_gc >= t || (unsigned char)out->data[vf_gv].data[vf_gc] == img[vf_gv * w + vf_gc]),
+                     "row k = bytes k*w .. k*w+w-1 of the record, trailing spaces removed");
+  }
+  VF_CANARY();
+}
+#endif
